@@ -215,6 +215,8 @@ class Recorder:
                     raise rec.raised
                 if kind == "raise_key":
                     raise KeyError("injected")
+                if kind == "raise_stop":     # an exception class with a meaning for Python's iteration protocol (a data iterator ran dry)
+                    raise StopIteration("injected")
                 he = rec.spec.get("noise") == "specified"
                 v = dict(nan=float("nan"), inf=float("inf"), ninf=float("-inf"), complex=complex(1, 2), complex0=complex(3, 0),
                          npcomplex=np.complex128(1 + 2j), npcomplex0=np.complex128(3 + 0j), npnan=np.float64("nan"),
